@@ -309,6 +309,14 @@ def main():
                 for m in E:
                     lst.append(m)
                 rt_l = [lst[j] is m for j, m in enumerate(E)]
+                # index assignment: every position takes every member and returns it
+                ms = list(E)
+                for j in range(len(ms)):
+                    for m in ms:
+                        lst[j] = m
+                        rt_l.append(lst[j] is m)
+                    lst[j] = ms[j]
+                rt_l.append([x for x in lst] == ms)
                 impl = {"vals": list(ei.enums), "e2v": [ei.e2v(m) for m in E], "v2e": [list(E).index(ei.v2e(v)) for v in ei.enums]}
             except Exception as ex:
                 ck.oracle_fail("enum-exception:" + type(ex).__name__, {"members": members, "type_name": tname},
